@@ -98,7 +98,7 @@ package smtp
 //@   prop C03 C11
 //@   requires s != nil && s.endp != nil && s.endp.limits != nil && gPermit == 1 && txKeysOK(s)
 //@   requires s.delivery == nil || !gOpen[refOf(s.delivery)]
-//@   modifies s.mailFrom, s.opts, s.msgMeta, s.delivery, s.deliveryErr, s.msgCtx, gPermit
+//@   modifies s.mailFrom, s.opts, s.msgMeta, s.delivery, s.deliveryErr, s.msgCtx, s.rawRcpts, gPermit, sync.Mutex.state, sync.Mutex.sema
 //@   ensures s.delivery == nil && s.msgMeta == nil && gPermit == 0
 //@ func (*Session).abort
 //@   prop C03
@@ -143,10 +143,32 @@ package smtp
 //@   ensures cmtSame(s.delivery)
 //@   ensures forall x ref :: old(gOpen)[x] && (s.delivery == nil || x != refOf(s.delivery)) && (old(s.delivery) == nil || x != refOf(old(s.delivery))) ==> gOpen[x]
 //@   ensures old(s.delivery) != nil && (s.delivery == nil || refOf(s.delivery) != refOf(old(s.delivery))) ==> !gOpen[refOf(old(s.delivery))]
+// rcpt: the recipient goes to the delivery in normalized form; when it was accepted, the form the client used is
+// recorded for it (appended to the forms recorded for the same normalized address), and nothing else is recorded.
 //@ func (*Session).rcpt
 //@   prop C03
-//@   modifies gAcc
+//@   modifies gAcc, s.rawRcpts, allMaps("map[string][]string"), sync.Mutex.state, sync.Mutex.sema
 //@   requires sInv(s) && s.delivery != nil && opts != nil
+//@   assert-update rawRcpts : gAcc[refOf(s.delivery)][$key]
+//@   assert-update rawRcpts : len($value) == (has($map, $key) ? len($map[$key]) : 0) + 1 && $value[len($value) - 1] == to
+//@   assert-update rawRcpts : has($map, $key) ==> (forall k int :: 0 <= k && k < len($map[$key]) ==> $value[k] == $map[$key][k])
+// rawRcpt: the oldest form recorded for a normalized recipient that was not handed out yet (handed out once), or the
+// normalized address itself when none is left. statusWrapper reports every LMTP status under exactly that address:
+// go-smtp keys its per-recipient replies by the RCPT TO argument and fails the whole session on an unknown key.
+//@ func (*Session).rawRcpt
+//@   prop C03
+//@   requires s != nil
+//@   modifies allMaps("map[string][]string"), sync.Mutex.state, sync.Mutex.sema
+//@   ensures old(has(s.rawRcpts, cleanTo) && len(s.rawRcpts[cleanTo]) > 0) ==> result == old(s.rawRcpts[cleanTo][0]) && len(s.rawRcpts[cleanTo]) == old(len(s.rawRcpts[cleanTo])) - 1
+//@   ensures !old(has(s.rawRcpts, cleanTo) && len(s.rawRcpts[cleanTo]) > 0) ==> result == cleanTo
+//@ extern func (gosmtp.StatusCollector).SetStatus(c gosmtp.StatusCollector, rcptTo string, err error)
+//@ func (statusWrapper).SetStatus
+//@   prop C03
+//@   modifies *
+//@   requires sw.s != nil && sw.s.endp != nil && sw.s.msgMeta != nil && sw.sc != nil
+//@   assert-call (*Session).rawRcpt : $s == sw.s && $cleanTo == rcpt
+// ... and what go-smtp's collector is given is that oldest recorded raw form (the normalized address when none is left)
+//@   assert-call (gosmtp.StatusCollector).SetStatus : $rcptTo == (old(has(sw.s.rawRcpts, rcpt) && len(sw.s.rawRcpts[rcpt]) > 0) ? old(sw.s.rawRcpts[rcpt][0]) : rcpt)
 //@ func (*Session).Rcpt
 //@   prop C03
 //@   modifies *
